@@ -1,5 +1,6 @@
 (* Extraction of the C16 model to OCaml (ExtrOcamlBasic + ExtrOcamlString only; nat/N/Z stay inductive). *)
 From Coq Require Import Extraction ExtrOcamlBasic ExtrOcamlString.
-From Cb Require Import C16.Model.
+From Cb Require Import C16.Model C16.Nested.
 Extraction Language OCaml.
-Extraction "C16/c16_model.ml" run_program stmt_out print_multiple render format_value split has_interpolation has_fmt dec.
+Extraction "C16/c16_model.ml" run_program stmt_out print_multiple render format_value split has_interpolation has_fmt dec
+  run_main run_comp stmt_m exec_m call_m lift_program.
